@@ -583,3 +583,12 @@ def parser_factor(O):
     if not (nun and nnum and npar):
         O.inconclusive("vacuous: unary %d, literal %d, parenthesis %d accepting paths" % (nun, nnum, npar))
     O.note("accepting paths: %d unary, %d literal, %d parenthesised" % (nun, nnum, npar))
+
+
+@obligation("C08/kani-operator-kernels", profiles=("dev",),
+            desc="second engine (Kani / CBMC over the compiled code): BinOp::eval equals the statement for the comparison, "
+                 "bitwise, shift, + and - operators for all 2^128 operand pairs; no operator panics for any operands; a zero "
+                 "divisor is an error; UnaryOp::eval for all values.  `* / %` results: outside CBMC's reach (stated in the harness)")
+def kani_operator_kernels(O):
+    from . import kani_obs
+    kani_obs.expr_kernels(O, "C08")
